@@ -322,6 +322,8 @@ COMBINATORS = {
     'std::option::Option::<T>::ok_or_else': (OPT, ('None', 0), False, ('wrap', RES, 'Err', 1), ('rewrap', 'Some', 1, RES, 'Ok', 0)),
     'std::option::Option::<T>::unwrap_or_else': (OPT, ('None', 0), False, ('flat',), ('payload', 'Some', 1)),
     'std::option::Option::<T>::is_some_and': (OPT, ('Some', 1), True, ('flat',), ('false',)),
+    # (Option::filter is deliberately NOT expanded: a rule that objects to `x.filter(p).map(f)` — f does not run for every Some —
+    #  would be talked out of it by the expanded rendering, in which f simply sits under an `if`.)
     'std::result::Result::<T, E>::map': (RES, ('Ok', 0), True, ('wrap', RES, 'Ok', 0), ('rewrap', 'Err', 1, RES, 'Err', 1)),
     'std::result::Result::<T, E>::map_err': (RES, ('Err', 1), True, ('wrap', RES, 'Err', 1), ('rewrap', 'Ok', 0, RES, 'Ok', 0)),
     'std::result::Result::<T, E>::and_then': (RES, ('Ok', 0), True, ('flat',), ('rewrap', 'Err', 1, RES, 'Err', 1)),
@@ -485,7 +487,11 @@ def expand_call_once(raw):
                 ast.append({'lhs': {'l': dl + 1, 'p': []}, 'rv': {'k': 'ref', 'mut': False, 'pl': {'l': cl, 'p': []}}, 'ln': ln, 'exp': False})
             else:
                 ast.append({'lhs': {'l': dl + 1, 'p': []}, 'rv': {'k': 'use', 'a': {'mv': {'l': cl, 'p': []}}}, 'ln': ln, 'exp': False})
-            if takes:
+            if takes and result[0] == 'filter':
+                # the predicate looks at the payload through a reference; the value itself stays in `s`
+                ast.append({'lhs': {'l': dl + 2, 'p': []},
+                            'rv': {'k': 'ref', 'mut': False, 'pl': payload(act_name, act_vi, '?')}, 'ln': ln, 'exp': False})
+            elif takes:
                 ast.append({'lhs': {'l': dl + 2, 'p': []},
                             'rv': {'k': 'use', 'a': {'mv': payload(act_name, act_vi, cb['locals'][2]['ty'])}}, 'ln': ln, 'exp': False})
             b_act = new_block(ast, goto(db))
@@ -494,12 +500,16 @@ def expand_call_once(raw):
             for v in cb.get('vars', []):
                 vv = _remap(v, dl, db, None, prom)
                 f['vars'].append(vv)
+            filter_returns = []
             for gb in cb['blocks']:
                 nb = {'cleanup': gb.get('cleanup', False),
                       'st': [_remap(st, dl, db, None, prom) for st in gb['st']],
                       'term': _remap(gb['term'], dl, db, None, prom)}
                 nt = nb['term']
-                if nt['k'] == 'return':
+                if nt['k'] == 'return' and result[0] == 'filter':
+                    filter_returns.append(nb)
+                    nb['term'] = None
+                elif nt['k'] == 'return':
                     if result[0] == 'flat':
                         nb['st'].append({'lhs': copy.deepcopy(dest), 'rv': {'k': 'use', 'a': {'mv': {'l': dl, 'p': []}}},
                                          'ln': nt.get('ln', ln), 'exp': False})
@@ -511,6 +521,14 @@ def expand_call_once(raw):
                 else:
                     _retarget(nt, db)
                 B.append(nb)
+            if filter_returns:
+                # kept: dest = the scrutinee as it is;  dropped: dest = None
+                b_keep = new_block([{'lhs': copy.deepcopy(dest), 'rv': {'k': 'use', 'a': {'mv': {'l': s, 'p': []}}}, 'ln': ln, 'exp': False}],
+                                   goto(target))
+                b_drop = new_block([{'lhs': copy.deepcopy(dest), 'rv': {'k': 'agg', 'adt': OPT, 'variant': 'None', 'vi': 0, 'fields': [],
+                                                                        'ops': []}, 'ln': ln, 'exp': False}], goto(target))
+                for nb in filter_returns:
+                    nb['term'] = {'k': 'switch', 'd': {'cp': {'l': dl, 'p': []}}, 'cases': [[0, b_drop]], 'else': b_keep, 'ln': ln, 'exp': False}
             # the environment is now a plain tuple of the captured operands; its fields are read by index
             def fix_env(x):
                 if isinstance(x, dict):
